@@ -18,6 +18,7 @@ import HvPush.Lemmas.Drain
 import HvPush.Lemmas.Driver
 import HvPush.Lemmas.Route
 import HvPush.Lemmas.Queue
+import HvPush.Lemmas.Compose
 namespace HvPush
 open Prog
 
@@ -78,6 +79,12 @@ theorem filter_sound (p : α → Bool) : (filterC p).Sound () [0] (fun _ ins out
     | cons x xs ih => cases h : p x <;> simp [List.filterMap_cons, List.filter_cons, h, ih]
   have := filterMap_sound (fun x => if p x then some x else none)
   simpa only [filterC, e] using this
+
+/-- the `Sink` adapter (`poll_finalize` = `poll_flush` of the wrapped sink) and the `&mut P`
+    forwarding impl: identity -/
+theorem sinkAdapter_sound : (idC (α := α)).Sound () [0] (fun _ ins outs => outs = ins) := by
+  have := filterMap_sound (some : α → Option α)
+  simpa [idC, List.filterMap_some] using this
 
 /-! ## FlatMap / Flatten -/
 
@@ -1290,5 +1297,85 @@ theorem sendPush_end_to_end {K : Comb κ α β} {k0 : κ} {ports : List Nat} {sp
   have := h2 hc i hi
   rw [hs] at this
   exact this
+
+/-! ## Pipelines -/
+
+/-- **Pipelines follow by induction**: `K1` pushing into `K2` (`Comb.comp`: every downstream call
+    of `K1` is answered by the corresponding operation of `K2`) is contract-sound when both are;
+    the delivered items compose.  `K2` may itself be a composite, a `Fanout`, ... -/
+theorem pipeline_compose {K1 : Comb κ1 α β} {K2 : Comb κ2 β γ} {k1 : κ1} {k2 : κ2}
+    {S1 : Nat → List α → List β → Prop} {ports : List Nat} {S2 : Nat → List β → List γ → Prop}
+    (h1 : K1.Sound k1 [0] S1) (hm : K1.Mono k1) (h2 : K2.Sound k2 ports S2) :
+    (K1.comp K2).Sound (k1, k2) ports (fun i ins outs => ∃ mid, S1 0 ins mid ∧ S2 i mid outs) :=
+  comp_sound h1 hm h2
+
+/-- the single-downstream combinators only ever talk to port 0 (needed to chain them) -/
+theorem single_port_combinators :
+    (∀ g : α → Option β, (filterMapC g).Mono ()) ∧ (∀ f : α → List β, (flatMapC f).Mono []) ∧
+    (inspectC (α := α)).Mono [] ∧
+    (∀ (step : S → α → S) (it : S → List β) (st0 : S), (accumulateC step it).Mono (.acc st0)) ∧
+    (∀ le : α → α → Bool, (sortC le).Mono ⟨[], false⟩) ∧
+    (∀ (buf0 : List α) (replay : Bool), (persistC (α := α)).Mono (PersistSt.new buf0 replay)) ∧
+    (fmaC (β := β)).Mono ⟨none, none⟩ ∧ (fmsC (β := β)).Mono none ∧
+    (∀ (o : Bool) (q0 : List (QEntry β)), (resolveC (β := β) o false).Mono q0) :=
+  ⟨fun g => (aux_simFM g).mono ⟨by simp, rfl, by simp, rfl⟩,
+   fun f => (aux_simFlat f).mono ⟨by simp, rfl, by simp, by simp, rfl⟩,
+   aux_simInspect.mono ⟨by simp, rfl, by simp, rfl, rfl⟩,
+   fun step it st0 => (aux_simAcc step it st0).mono ⟨rfl, rfl, rfl, rfl, rfl⟩,
+   fun le => (aux_simSort le).mono ⟨rfl, rfl, rfl, rfl, rfl⟩,
+   fun buf0 replay => (aux_simPersist buf0 (PersistSt.new buf0 replay).idx).mono
+     ⟨by simp, rfl, by simp [PersistSt.new], by simp [PersistSt.new], by simp, by simp⟩,
+   aux_simFma.mono ⟨by simp, rfl, by simp [fmaPend], by simp, by simp, by simp⟩,
+   aux_simFms.mono ⟨by simp, rfl, by simp [fmsPend], by simp, by simp⟩,
+   fun o q0 => (aux_simResolve o q0).mono ⟨by simp, rfl, by simp, by simp, by simp⟩⟩
+
+theorem keyed_single_port [DecidableEq K] (ins : V → A) (upd : A → V → A) (order : List (K × A) → List (K × A))
+    (m0 : List (K × A)) : (keyedC ins upd order).Mono ⟨m0, [], 0⟩ :=
+  (aux_simKeyed ins upd order m0).mono ⟨rfl, rfl, rfl, rfl, rfl, rfl⟩
+
+/-- A worked pipeline: `map f → flat_map g → persist(replay) → fanout`, under the standard driver,
+    over any two downstreams with any pending patterns, for every pull script and poll count:
+    both ends see contract-honouring traces and, at `Ready`, both were finalized and received
+    `buf0 ++ flatMap g (map f items)`. -/
+theorem pipeline_example (f : α → β) (g : β → List γ) (buf0 : List γ) (N : MPush σ γ) (s : σ)
+    (pull : List (Option α)) (n : Nat) :
+    let K := (mapC f).comp ((flatMapC g).comp ((persistC (α := γ)).comp fanoutC))
+    let o := drive K N (fun _ => false) n ⟨pull, false, ((), ([], (PersistSt.new buf0 true, ()))), s⟩
+    (∀ i, ProtoOk (port i o.down)) ∧
+    (o.ready = true → ∀ i ∈ [0, 1], Closed (port i o.down) ∧
+      sends (port i o.down) = buf0 ++ ((items pull).map f).flatMap g) := by
+  intro K o
+  have hp : (persistC (α := γ)).Mono (PersistSt.new buf0 true) := (single_port_combinators (α := γ) (β := γ) (S := Unit)).2.2.2.2.2.1 buf0 true
+  have hf : (flatMapC g).Mono [] := (single_port_combinators (α := β) (β := γ) (S := Unit)).2.1 g
+  have hm : (mapC f).Mono () := (single_port_combinators (α := α) (β := β) (S := Unit)).1 _
+  have s3 := pipeline_compose (persist_sound buf0 true) hp (fanout_sound (α := γ))
+  have s2 := pipeline_compose (flatMap_sound g) hf s3
+  have s1 := pipeline_compose (map_sound f) hm s2
+  obtain ⟨h1, h2⟩ := sendPush_end_to_end s1 N pull s n
+  refine ⟨h1, fun hr i hi => ?_⟩
+  obtain ⟨hc, m1, e1, m2, e2, m3, e3, e4⟩ := h2 hr i hi
+  refine ⟨hc, ?_⟩
+  rw [e4, e3, e2, e1]; simp
+
+/-! ## Non-vacuity: concrete instances -/
+
+/-- a contract-honouring trace with pendings, and violating ones -/
+example : ProtoOk [Ev.rdy true, Ev.snd 1, Ev.rdy false, Ev.rdy true, Ev.snd 2, Ev.fin false, Ev.rdy true, Ev.fin true] := by unfold ProtoOk; decide
+example : ¬ ProtoOk [Ev.rdy true, Ev.snd 1, Ev.snd 2] := by unfold ProtoOk; decide
+example : ¬ ProtoOk [Ev.rdy true, Ev.fin false, Ev.snd 2] := by unfold ProtoOk; decide
+example : ¬ ProtoOk [Ev.rdy true, Ev.rdy false, Ev.snd 2] := by unfold ProtoOk; decide
+
+/-- `flat_map` (x ↦ [x, x+10]) under the driver over a scripted leaf whose second `ready?` pends,
+    pull = [1, Pending, 2]: the buffered `11` survives the pending; four polls complete. -/
+example :
+    let o := drive (flatMapC fun x : Nat => [x, x + 10]) leaf (fun _ => false) 5
+      ⟨[some 1, none, some 2], false, [], (⟨[[true, false]], [[false]], []⟩ : Leaf Nat)⟩
+    o.ready = true ∧ sends (port 0 o.down) = [1, 11, 2, 12] ∧ o.st.s.tr = o.down := by decide
+
+/-- the F121 witness on the (fixed) model: the resolved item survives two downstream pendings -/
+example :
+    let o := drive (fmaC (β := Nat)) leaf (fun _ => false) 4
+      ⟨[some (0, some 7)], false, ⟨none, none⟩, (⟨[[false, false]], [], []⟩ : Leaf Nat)⟩
+    o.ready = true ∧ sends (port 0 o.down) = [7] := by decide
 
 end HvPush
